@@ -1,6 +1,221 @@
-//! Property C06: correspondence and oracle (stub: nothing built yet).
-use crate::report::Report;
+//! Property C06: the Luau-lowering rules preserve program behaviour.
+//!  (1) per rule: correspondence of the Lean rule model with the real `Rule::process` and the
+//!      ORACLE: original vs REAL output executed on the Lean reference semantics — outcomes
+//!      (returned values + external-call trace) equal whenever the original is error-free;
+//!  (2) all nine rules together (fixed order and random orders), same oracle;
+//!  (3) end to end through `darklua_core::process`: the generated TEXT re-parsed and executed.
+//! Programs inside the listed defect regions (F9 repeat/continue, F25 ≥ 2 elseif, F26 `__idiv`)
+//! are generated too (Opts) but classified by `luaucheck::behaviour_hypothesis`: a failure there
+//! is counted, not reported; the recorded witnesses replay as KNOWN-FINDING.
+use crate::astsexp;
+use crate::exec;
+use crate::luaucheck::{self, LuauCase, RULES};
+use crate::model::Model;
+use crate::progen::{self, Features};
+use crate::progen_c06;
+use crate::report::{Report, Violation};
+use crate::rng::Rng;
+use crate::rulecheck::{self, CaseResult};
+use darklua_core::rules::Rule;
+use serde_json::json;
 
-pub fn run(report: &mut Report, _replay: Option<&str>) {
-    report.notes.push("C06: no harness yet".to_owned());
+fn all_together(model: &mut Model, report: &mut Report, code: &str, order: &[&str]) {
+    let block0 = match exec::parse(code) {
+        Ok(b) => b,
+        Err(_) => return,
+    };
+    let sexp0 = astsexp::block_to_sexp(&block0);
+    if !luaucheck::behaviour_hypothesis_all(model, &sexp0, code) {
+        report.count("all_outside_hypothesis", 1);
+        return;
+    }
+    let rules: Vec<Box<dyn Rule>> = order.iter().map(|r| exec::rule_from_json(&format!("'{}'", r)).unwrap()).collect();
+    if let Some((o0, o1, tree)) = rulecheck::oracle_fails(model, &rules, code) {
+        let mut fails = |text: &str| -> bool {
+            let inside = match exec::parse(text) {
+                Ok(b) => luaucheck::behaviour_hypothesis_all(model, &astsexp::block_to_sexp(&b), text),
+                Err(_) => false,
+            };
+            inside && rulecheck::oracle_fails(model, &rules, text).is_some()
+        };
+        let small = rulecheck::shrink_lines(code, &mut fails);
+        report.violation(Violation {
+            kind: "oracle".into(),
+            check: "all:behaviour".into(),
+            what: "the lowering rules together change the behaviour of a program whose original run is error-free".into(),
+            input: json!({"rules": order, "code": small, "original_outcome": o0, "transformed_outcome": o1, "transformed_tree": tree}),
+            failing_input_found: true,
+        });
+    }
+    report.count("all_checked", 1);
+}
+
+fn end_to_end(model: &mut Model, report: &mut Report, code: &str, order: &[&str], generator: &str) {
+    let block0 = match exec::parse(code) {
+        Ok(b) => b,
+        Err(_) => return,
+    };
+    if !luaucheck::behaviour_hypothesis_all(model, &astsexp::block_to_sexp(&block0), code) {
+        return;
+    }
+    let resources = darklua_core::Resources::from_memory();
+    resources.write("src/main.lua", code).unwrap();
+    let rule_list: Vec<String> = order.iter().map(|r| format!("'{}'", r)).collect();
+    let config_text = format!("{{ generator: '{}', rules: [{}] }}", generator, rule_list.join(", "));
+    let config: darklua_core::Configuration = json5::from_str(&config_text).expect("configuration");
+    let result = std::panic::catch_unwind(std::panic::AssertUnwindSafe(|| {
+        darklua_core::process(&resources, darklua_core::Options::new("src").with_configuration(config))
+    }));
+    let ok = match result {
+        Ok(Ok(r)) => r.result().is_ok(),
+        Ok(Err(_)) => false,
+        Err(_) => {
+            report.violation(Violation {
+                kind: "oracle".into(),
+                check: "e2e:panic".into(),
+                what: "darklua_core::process panicked".into(),
+                input: json!({"config": config_text, "code": code}),
+                failing_input_found: true,
+            });
+            return;
+        }
+    };
+    if !ok {
+        report.count("e2e_process_error", 1);
+        return;
+    }
+    let output = resources.get("src/main.lua").unwrap();
+    let block1 = match exec::parse(&output) {
+        Ok(b) => b,
+        Err(e) => {
+            report.violation(Violation {
+                kind: "oracle".into(),
+                check: "e2e:reparse".into(),
+                what: format!("output of the pipeline does not parse: {}", e),
+                input: json!({"config": config_text, "code": code, "output": output}),
+                failing_input_found: true,
+            });
+            return;
+        }
+    };
+    if let Some((o0, o1)) = rulecheck::oracle_compare(model, &block0, &block1) {
+        report.count("e2e_compared", 1);
+        if o0 != o1 {
+            report.violation(Violation {
+                kind: "oracle".into(),
+                check: format!("e2e:{}", generator),
+                what: "processed file behaves differently from the original".into(),
+                input: json!({"config": config_text, "code": code, "output": output, "original_outcome": o0, "transformed_outcome": o1}),
+                failing_input_found: true,
+            });
+        }
+    }
+}
+
+fn one_program(model: &mut Model, r: &mut Report, rng: &mut Rng, code: &str) {
+    for rule in RULES.iter() {
+        let json_text = format!("'{}'", rule);
+        let case = LuauCase { rule_name: rule, rule_json: &json_text, model_name: rule, check_census: false, check_behaviour: true };
+        let result = luaucheck::check_program(model, r, &case, code);
+        match &result {
+            CaseResult::Fired => {
+                r.hist("rule_fired", rule);
+                r.case(Some((rule, code)));
+            }
+            CaseResult::Trivial => r.case(None::<u8>),
+            CaseResult::Skipped(why) => {
+                r.hist("skipped", why);
+                r.case(None::<u8>);
+            }
+        }
+        if r.samples.len() < 3 && result == CaseResult::Fired && rng.chance(1, 50) {
+            r.sample(json!({"rule": rule, "code": code}));
+        }
+    }
+    all_together(model, r, code, &RULES);
+    let mut order: Vec<&str> = RULES.to_vec();
+    rng.shuffle(&mut order);
+    all_together(model, r, code, &order);
+    r.case(None::<u8>);
+    if rng.chance(1, 3) {
+        let generator = *rng.pick(&["retain_lines", "dense", "readable"]);
+        end_to_end(model, r, code, &order, generator);
+    }
+}
+
+fn corpus(dir: &str) -> Vec<(String, String)> {
+    let path = format!("{}/../corpus/{}", env!("CARGO_MANIFEST_DIR"), dir);
+    let mut out = Vec::new();
+    if let Ok(entries) = std::fs::read_dir(&path) {
+        let mut files: Vec<_> = entries.filter_map(|e| e.ok()).map(|e| e.path()).collect();
+        files.sort();
+        for f in files {
+            if f.extension().map(|e| e == "lua").unwrap_or(false) {
+                if let Ok(text) = std::fs::read_to_string(&f) {
+                    out.push((f.file_name().unwrap().to_string_lossy().to_string(), text));
+                }
+            }
+        }
+    }
+    out
+}
+
+pub fn run(report: &mut Report, replay: Option<&str>) {
+    report.rule = "corpus/C06/*.lua, then type-directed random Luau programs (progen Features::luau()) and the targeted \
+        generator progen_c06 (side effects in compound-assignment prefix/key, continue in each loop kind with break/return, \
+        falsy / truthy-literal / multi-value if-branches, every value kind in interpolations incl. __tostring objects, \
+        negative/fractional/string `//`, shadowed math/string/tostring; one third with the defect-region shapes F9/F25/F26 \
+        switched on, classified by the hypothesis H and not reported); each program through each of the nine lowering \
+        rules alone and all together in the fixed and a random order: real Rule::process output compared with the Lean model \
+        (trees) and executed on the Lean reference semantics against the original (outcome = returned values + external-call \
+        trace); end to end through darklua_core::process. Non-trivial = the rule changed the tree; distinct by (rule, program)."
+        .to_owned();
+    if let Some(path) = replay {
+        let mut model = Model::spawn();
+        let mut rng = Rng::new(report.seed);
+        if let Ok(text) = std::fs::read_to_string(path) {
+            if let Ok(v) = serde_json::from_str::<serde_json::Value>(&text) {
+                if let Some(code) = v["input"]["code"].as_str() {
+                    one_program(&mut model, report, &mut rng, code);
+                }
+            }
+        }
+        return;
+    }
+    {
+        let mut model = Model::spawn();
+        luaucheck::replay_known_findings(&mut model, report, "C06");
+        let mut rng = Rng::new(report.seed);
+        for (name, code) in corpus("C06") {
+            report.hist("corpus", &name);
+            one_program(&mut model, report, &mut rng, &code);
+        }
+    }
+    let programs_per_thread: usize = if report.is_thorough() { 900 } else { 90 };
+    let threads = 12;
+    let seed = report.seed;
+    report.parallel(threads, |tid, r| {
+        let mut model = Model::spawn();
+        let mut rng = Rng::new(seed.wrapping_mul(1000).wrapping_add(tid as u64));
+        for i in 0..programs_per_thread {
+            let code = if i % 3 == 0 {
+                let (code, used) = progen::generate(&mut rng.fork(), Features::luau(), 60);
+                for u in &used {
+                    r.hist("constructs", u);
+                }
+                r.hist("generator", "progen-luau");
+                code
+            } else {
+                let defects = i % 3 == 2 && rng.chance(1, 2);
+                let opts = progen_c06::Opts { f9: defects, many_elifs: defects, idiv_meta: defects };
+                let (code, tags) = progen_c06::generate(&mut rng.fork(), opts, 8);
+                for t in &tags {
+                    r.hist("shapes", t);
+                }
+                r.hist("generator", if defects { "progen_c06+defect-shapes" } else { "progen_c06" });
+                code
+            };
+            one_program(&mut model, r, &mut rng, &code);
+        }
+    });
 }
